@@ -13,6 +13,7 @@ package main
 //     conversions to in-range values.
 
 import (
+	"regexp"
 	"strconv"
 	"fmt"
 	"strings"
@@ -761,6 +762,7 @@ type wgenOpts struct {
 	contLetBoost bool
 	selSwzBoost bool
 	multiSwz   bool // multi-component swizzles as values
+	pack4      bool // pack4x{I,U}8[Clamp] / unpack4x{I,U}8
 	noArrRead  bool // no `a[i]` value reads of local arrays and no array-typed `let`
 	froundBoost bool // knob programs: round() of run-time half-integers stored to the output
 	fround     bool // round() on half-integers (C04/C05 findings: MSL round is ties-away, GLSL round leaves ties open)
@@ -1112,6 +1114,20 @@ func (g *wgen) builtin(t *wty, depth int) *wexpr {
 	}
 	switch sc.k {
 	case "i32", "u32":
+		if g.o.pack4 && g.c.chance(0.12) {
+			// 4x8 integer packing: exact integer definitions; the writers expand them to `|` / `<<` chains
+			if t.k == "u32" {
+				n := g.c.pick("pack4xU8", "pack4xI8", "pack4xU8Clamp", "pack4xI8Clamp")
+				at := tVec(4, tU32)
+				if strings.Contains(n, "I8") {
+					at = tVec(4, tI32)
+				}
+				return call(n, g.runtime(at, depth-1))
+			}
+			if t.k == "vec" && t.n == 4 {
+				return call(map[string]string{"u32": "unpack4xU8", "i32": "unpack4xI8"}[sc.k], g.runtime(tU32, depth-1))
+			}
+		}
 		switch g.c.rng.Intn(12) {
 		case 0:
 			if sc.k == "u32" && !g.o.absU {
@@ -2300,7 +2316,7 @@ func defaultGenOpts(c *ctx) wgenOpts {
 	if c.chance(0.25) {
 		wLitSalt = c.rng.Uint32() | 1
 	}
-	return wgenOpts{shadowUse: c.chance(0.1), swBreak: c.chance(0.3), absU: c.chance(0.1), negInit: c.chance(0.1), vecInit: c.chance(0.1), rawShift: c.chance(0.1), clz: c.chance(0.1), privInit: c.chance(0.3), contCall: c.chance(0.1), ptrLet: c.chance(0.35), maxStmts: 6 + c.rng.Intn(14), maxDepth: 1 + c.rng.Intn(3), floats: c.chance(0.5), helpers: c.rng.Intn(4), structs: c.chance(0.5), contLet: c.chance(0.5), scalarSel: true, multiSwz: true}
+	return wgenOpts{shadowUse: c.chance(0.1), swBreak: c.chance(0.3), absU: c.chance(0.1), negInit: c.chance(0.1), vecInit: c.chance(0.1), rawShift: c.chance(0.1), clz: c.chance(0.1), privInit: c.chance(0.3), contCall: c.chance(0.1), ptrLet: c.chance(0.35), maxStmts: 6 + c.rng.Intn(14), maxDepth: 1 + c.rng.Intn(3), floats: c.chance(0.5), helpers: c.rng.Intn(4), structs: c.chance(0.5), contLet: c.chance(0.5), scalarSel: true, multiSwz: true, pack4: true}
 }
 
 
@@ -2610,3 +2626,24 @@ func hasSwzOfCompound(m *wmodule) bool {
 	})
 	return found
 }
+
+// hasPackOperand: is a pack4xU8 / pack4xU8Clamp call a direct operand of an operator (binary, unary, comparison)?  The
+// decidable shape of the recorded HLSL / GLSL defect: the expansion is an unparenthesised `|` chain.
+func hasPackOperand(m *wmodule) bool {
+	found := false
+	walkModuleExprs(m, func(e *wexpr) {
+		// anything but an argument position of a call / constructor (there the chain is delimited by `,` / `)`)
+		if e.k == "call" || e.k == "callfn" || e.k == "cons" {
+			return
+		}
+		for _, a := range e.args {
+			if a.k == "call" && (a.name == "pack4xU8" || a.name == "pack4xU8Clamp") {
+				found = true
+			}
+		}
+	})
+	// … and the right-hand side of a compound assignment (`x ^= pack4xU8(v)` is written `x = x ^ <chain>`)
+	return found || packCompoundRe.MatchString(m.wgsl())
+}
+
+var packCompoundRe = regexp.MustCompile(`(\+|-|\*|/|%|&|\||\^|<<|>>)= pack4xU8`)
